@@ -352,8 +352,8 @@ func valueRole(fn *ssa.Function, v ssa.Value) string {
 						}
 					}
 				}
-				if ci.Op == token.GTR && pred.Succs[0] == st.Block() {
-					if ld, ok := ci.Y.(*ssa.UnOp); ok && ld.X == ssa.Value(fv) && ci.X == st.Val {
+				if ci.Op == token.LSS && pred.Succs[0] == st.Block() { // `v > max` is reported as `max < v`
+					if ld, ok := ci.X.(*ssa.UnOp); ok && ld.X == ssa.Value(fv) && ci.Y == st.Val {
 						roles["max"] = true
 						return
 					}
@@ -571,9 +571,9 @@ func c05Legacy(p *load.Program, r *oblig.Report) {
 		for i := 0; i < sig.Params().Len(); i++ {
 			prm := sig.Params().At(i)
 			if b, ok := prm.Type().Underlying().(*types.Basic); ok && b.Info()&types.IsNumeric != 0 {
-				args = append(args, &an.SV{K: 'n', L: an.AtomLin("$p:" + prm.Name())})
+				args = append(args, &an.SV{K: 'n', L: an.AtomLin("$p:" + canonParam(p, prm))})
 			} else {
-				args = append(args, &an.SV{K: 'r', Path: "$p:" + prm.Name(), T: prm.Type()})
+				args = append(args, &an.SV{K: 'r', Path: "$p:" + canonParam(p, prm), T: prm.Type()})
 			}
 		}
 		bi.CallFunc(f, &an.SV{K: 'r', Path: "$wb", T: sig.Recv().Type()}, args, st)
@@ -677,9 +677,9 @@ func c05Legacy(p *load.Program, r *oblig.Report) {
 		for i := 0; i < sig.Params().Len(); i++ {
 			prm := sig.Params().At(i)
 			if b, ok := prm.Type().Underlying().(*types.Basic); ok && b.Info()&types.IsNumeric != 0 {
-				args = append(args, &an.SV{K: 'n', L: an.AtomLin("$p:" + prm.Name())})
+				args = append(args, &an.SV{K: 'n', L: an.AtomLin("$p:" + canonParam(p, prm))})
 			} else {
-				args = append(args, &an.SV{K: 'r', Path: "$p:" + prm.Name(), T: prm.Type()})
+				args = append(args, &an.SV{K: 'r', Path: "$p:" + canonParam(p, prm), T: prm.Type()})
 			}
 		}
 		bi.CallFunc(f, &an.SV{K: 'r', Path: "$wb", T: sig.Recv().Type()}, args, st)
